@@ -505,6 +505,26 @@ def run_case(case):
                         rng.shuffle(order)
                     arrivals += [(key2, idx, payloads[idx], peer) for idx in order]
                     obs['reused_transfer_numbers'] = obs.get('reused_transfer_numbers', 0) + 1
+            # hints are optional per message: some messages lose theirs, some get a (correct) transfer length hint of their own, so that
+            # in a frame of several messages one with hints is followed by one without
+            from vf.oracles import btpu_wire as _bw
+            rehinted = []
+            for (key, idx, payload, peer) in arrivals:
+                try:
+                    msgs, _end = _bw.decode_set(payload)
+                except _bw.BtpuError:
+                    msgs = []
+                roll = rng.random()
+                if len(msgs) == 1 and key in originals and roll < 0.7:
+                    msg = dict(type=msgs[0]['type'], body=msgs[0]['body'])
+                    if roll < 0.35:
+                        msg['hints'] = [(0, len(originals[key][0]).to_bytes(4, 'big'))]
+                        obs['messages_given_a_length_hint'] = obs.get('messages_given_a_length_hint', 0) + 1
+                    else:
+                        obs['messages_stripped_of_hints'] = obs.get('messages_stripped_of_hints', 0) + 1
+                    payload = _bw.encode_msg(msg)
+                rehinted.append((key, idx, payload, peer))
+            arrivals = rehinted
             if len(originals) >= 2 and rng.random() < 0.6:
                 # one peer may put messages of several transfers into one frame: neighbours from the same peer are merged (the second
                 # message of such a frame is handled like any other, whatever the first one did)
@@ -513,6 +533,18 @@ def run_case(case):
                     last = merged[-1] if merged else None
                     if last is not None and last[3] == arr[3] and rng.random() < 0.5:
                         parts = (last[1] if last[0] == 'multi' else [(last[0], last[1])]) + [(arr[0], arr[1])]
+                        if last[0] != 'multi' and last[0] != arr[0] and last[0] in originals and rng.random() < 0.7:
+                            # the first message of the frame carries its transfer's length as a hint, the second (another transfer)
+                            # carries no hint at all
+                            try:
+                                (m_one, _e1), (m_two, _e2) = _bw.decode_set(last[2]), _bw.decode_set(arr[2])
+                                if len(m_one) == 1 and len(m_two) == 1:
+                                    last = (last[0], last[1], _bw.encode_msg(dict(type=m_one[0]['type'], body=m_one[0]['body'],
+                                                                                   hints=[(0, len(originals[last[0]][0]).to_bytes(4, 'big'))])), last[3])
+                                    arr = (arr[0], arr[1], _bw.encode_msg(dict(type=m_two[0]['type'], body=m_two[0]['body'])), arr[3])
+                                    obs['frames_hinted_then_unhinted'] = obs.get('frames_hinted_then_unhinted', 0) + 1
+                            except _bw.BtpuError:
+                                pass
                         merged[-1] = ('multi', parts, last[2] + arr[2], arr[3])
                         obs['multi_message_frames'] = obs.get('multi_message_frames', 0) + 1
                     else:
